@@ -19,6 +19,18 @@ MAP_FIXED = os.environ.get("C14_MAP_FIXED", "1") == "1"   # default: the repaire
 # the classes of the three repaired findings (map-order-multiprocess, run-jobs-startup-race, grid-parallel-failing-cell)
 # are no longer attached to any failure: those failures are violations again
 SNEAKIER_CLASS = "sneakier-two-pools-constructed"
+PICKLE_RACE_CLASS = "job-pickling-race"
+RACE_TEXT = "dictionary changed size during iteration"
+
+
+def is_pickling_race(c, r):
+    """the one signature of known finding job-pickling-race in a real-caller case: the PARALLEL run raised exactly this
+    RuntimeError before any cell had been evaluated, the serial run behaved"""
+    if c["kind"] not in ("grid_fit", "sens_fit") or not isinstance(r, dict) or "parallel" not in r:
+        return False
+    par = r["parallel"]
+    return bool(par.get("raised")) and par["raised"][0] == "RuntimeError" and RACE_TEXT in str(par["raised"][1]) \
+        and not any(par.get("evals", [1])) and (r["serial"].get("raised") or [None])[0] != "RuntimeError"
 
 
 def fval(x):
@@ -257,6 +269,8 @@ FIXED_CASES = [
     {"kind": "sens_fit", "n": 4, "cores": 4, "fail": [], "sched": [["T", 2], ["T", 1], ["T", 0], ["T", 0], ["P"]]},
     {"kind": "grid_fit", "n": 4, "grid": ["a"], "cores": 4, "fail": [], "sched": [["T", 2], ["T", 1], ["T", 0], ["T", 0], ["P"]]},
     {"kind": "jobs", "cores": 4, "jobs": [[1, 0], [2, 0], [3, 0], [4, 0]], "sched": [["T", 2], ["T", 1], ["T", 0], ["T", 0], ["P"]]},
+    # a model query while another thread pickles an instance of the model's class (known finding job-pickling-race)
+    {"kind": "pickle_walk", "attrs": 3},
     # two SneakierPools constructed before the first is used
     {"kind": "sneakier", "procs": 2, "order": "constructed-first", "pools": [{"mul": 3, "xs": [1, 2, 3]}, {"mul": 100, "xs": [1, 2]}]},
     {"kind": "smap_free", "procs": 3, "batches": [{"jobs": [[5, 0, 3], [6, 0, 0], [7, 0, 1], [8, 0, 0]], "big": True}]},
@@ -385,6 +399,18 @@ def oracle(c, r):
                 cls = [SNEAKIER_CLASS] if c["order"] == "constructed-first" and len(c["pools"]) >= 2 else []
                 out.append(("SneakierPool(fitness = %d*x+1).map over %s gave %s, serial evaluation gives %s" % (sp["mul"], sp["xs"], res, exp), cls))
         return out
+    if k == "pickle_walk":
+        # r["fired"] is false when the walk never looks into the class (the repaired walk): then nothing can interleave
+        if r["raised"] or r["concurrent"] != r["alone"]:
+            known = bool(r["raised"]) and r["raised"][0] == "RuntimeError" and RACE_TEXT in str(r["raised"][1])
+            out.append(("a model query answered %s alone but %s while another thread pickled an instance of the model's class "
+                        "(the job queue's feeder thread does that while Sensitivity._make_jobs builds the next job)" % (
+                            r["alone"], r["raised"] or r["concurrent"]), [PICKLE_RACE_CLASS] if known else []))
+        return out
+    if k in ("grid_fit", "sens_fit") and is_pickling_race(c, r):
+        return [("number_of_cores=%d raised %s before any cell was evaluated, number_of_cores=1 %s" % (
+            c["cores"], r["parallel"]["raised"], "raised %s" % r["serial"]["raised"] if r["serial"].get("raised") else "returned"),
+            [PICKLE_RACE_CLASS])]
     if k in ("grid_fit", "sens_fit"):
         ser, par = r["serial"], r["parallel"]
         total = c["n"] ** len(c["grid"]) if k == "grid_fit" else c["n"]
@@ -568,7 +594,7 @@ def nontrivial(c):
         return c["cores"] >= 3
     if k == "sneakier":
         return c["procs"] >= 2
-    if k == "emcee_run":
+    if k in ("emcee_run", "pickle_walk"):
         return True
     return False
 
@@ -582,7 +608,7 @@ def describe(c):
         return {"kind": k, "n": c["n"], "total": c["total"], "stream": len(c["stream"])}
     if k == "emcee":
         return {"kind": k, "procs": c["procs"], "walkers": len(c["vals"])}
-    if k in ("jobs_race", "smap_twofit", "emcee_run"):
+    if k in ("jobs_race", "smap_twofit", "emcee_run", "pickle_walk"):
         return dict(c)
     if k in ("grid_fit", "sens_fit"):
         return {"kind": k, "cores": c["cores"], "n": c["n"], "grid": c.get("grid"), "failing_cells": c["fail"]}
@@ -649,6 +675,9 @@ def run(ctx):
         "the only in-tree caller of map, the initializer's zip, exhausts it); a function that RETURNS an Exception instance is "
         "treated as if it had raised it; MPI pools; the real Emcee search (its fit fails in this environment with IndexError in "
         "emcee.autocorr for any number of cores) -- emcee is driven through EnsembleSampler.sample with the pool instead",
+        "the real-caller cases are made deterministic with respect to known finding job-pickling-race by pickling an instance of "
+        "every model class once before the first case (the one-time window in which pickle adds __slotnames__ to the class "
+        "dict is then closed); the race itself is exhibited deterministically by the pickle_walk case",
         "which exception a map with several failing inputs raises: the LAST failing input's (model, theorem and oracle agree); "
         "serial evaluation would stop at the first",
     ]
@@ -689,7 +718,7 @@ def run(ctx):
         ctx.count_case({kk: v for kk, v in normal_form(c).items() if kk != "pin"}, nontrivial(c), c["kind"])
         ctx.oracle["cases"] += 1
         d = describe(c)
-        ctx.hist("workers", d["procs"] if "procs" in d else d["cores"] - 1 if "cores" in d else d["n"])
+        ctx.hist("workers", d["procs"] if "procs" in d else d["cores"] - 1 if "cores" in d else d.get("n", 1))
         if c["kind"] == "jobs_race" and "ok" in r:
             ctx.notes.setdefault("jobs_race", []).append({"case": d, "hangs": r["ok"]["hangs"], "calls": r["ok"]["calls"],
                                                           "calls_leaving_a_worker_blocked_in_get": r["ok"].get("stuck")})
@@ -715,7 +744,7 @@ def run(ctx):
             if ctx.failure("oracle", msg, c, classes=classes, impl=r["ok"]):
                 hard = True
         fails[i] = bool(msgs)
-        cc = coq_case(c, r["ok"])
+        cc = None if is_pickling_race(c, r["ok"]) else coq_case(c, r["ok"])
         if cc:
             coq_cases.append(cc)
             coq_idx.append(i)
